@@ -1,4 +1,644 @@
-// Command instrument rewrites a scratch copy of pkg/ggql for the scheduler.
+// Command instrument rewrites a scratch copy of pkg/ggql for the simulator.
+//
+//  1. every type expression sync.Mutex / sync.RWMutex becomes VerifMutex /
+//     VerifRWMutex (defined in the generated file zz_verif_sim.go): all
+//     existing Lock/Unlock call sites keep compiling, so a tree in which locks
+//     were added, moved or removed is instrumented exactly as it stands;
+//  2. before every statement that certainly reads or writes a watch-listed
+//     struct field (resolved through go/types), a call
+//     verifAccess(id, func() unsafe.Pointer { return unsafe.Pointer(&x.f) }, write, "file:line")
+//     is inserted: a scheduling point, a coverage probe and the input of the
+//     deterministic vector-clock race check.
+//
+// It prints a JSON summary (sites found, other synchronisation primitives seen)
+// on stdout. It never touches /repo: it is pointed at the scratch copy.
 package main
 
-func main() {}
+import (
+	"bytes"
+	"encoding/json"
+	"fmt"
+	"go/ast"
+	"go/format"
+	"go/importer"
+	"go/parser"
+	"go/token"
+	"go/types"
+	"os"
+	"path/filepath"
+	"sort"
+	"strings"
+)
+
+// watch list: struct type name -> field names
+var watch = map[string][]string{
+	"Root":         {"types", "dirs", "schema", "subscriptions", "AnyResolver", "obj"},
+	"typeList":     {"list", "dict"},
+	"Object":       {"meta", "Interfaces", "fields"},
+	"FieldDef":     {"goField", "method", "args", "Type"},
+	"Input":        {"meta", "fields"},
+	"Union":        {"Members"},
+	"Enum":         {"values"},
+	"Base":         {"Dirs"},
+	"Field":        {"ConType", "Args"},
+	"ArgValue":     {"Value"},
+	"Arg":          {"Default"},
+	"DirectiveUse": {"Args"},
+	"Subscription": {"sub", "field", "args"},
+	"fieldList":    {"list", "dict"},
+	"argList":      {"list", "dict"},
+	"VarDef":       {"Default"},
+}
+
+type summary struct {
+	Files          int            `json:"files"`
+	MutexTypes     int            `json:"mutex_type_sites_rewritten"`
+	LockCallSites  int            `json:"lock_unlock_call_sites"`
+	AccessSites    int            `json:"access_sites_inserted"`
+	AccessByField  map[string]int `json:"access_sites_by_field"`
+	OtherSync      []string       `json:"other_sync_primitives_not_owned_by_simulator"`
+	FieldIDs       []string       `json:"field_ids"`
+	SkippedNonAddr int            `json:"accesses_skipped_not_addressable"`
+}
+
+func fatal(f string, a ...interface{}) {
+	fmt.Fprintf(os.Stderr, "instrument: "+f+"\n", a...)
+	os.Exit(1)
+}
+
+func main() {
+	if len(os.Args) != 2 {
+		fatal("usage: instrument <package dir>")
+	}
+	dir := os.Args[1]
+	fset := token.NewFileSet()
+	pkgs, err := parser.ParseDir(fset, dir, func(fi os.FileInfo) bool {
+		return !strings.HasSuffix(fi.Name(), "_test.go") && !strings.HasPrefix(fi.Name(), "zz_verif")
+	}, parser.ParseComments)
+	if err != nil {
+		fatal("parse: %v", err)
+	}
+	pkg := pkgs["ggql"]
+	if pkg == nil {
+		fatal("package ggql not found in %s", dir)
+	}
+	var files []*ast.File
+	var names []string
+	for n := range pkg.Files {
+		names = append(names, n)
+	}
+	sort.Strings(names)
+	for _, n := range names {
+		files = append(files, pkg.Files[n])
+	}
+	info := &types.Info{
+		Types:      map[ast.Expr]types.TypeAndValue{},
+		Selections: map[*ast.SelectorExpr]*types.Selection{},
+		Uses:       map[*ast.Ident]types.Object{},
+		Defs:       map[*ast.Ident]types.Object{},
+	}
+	conf := types.Config{Importer: importer.ForCompiler(fset, "source", nil), Error: func(err error) {}}
+	tpkg, err := conf.Check("github.com/uhn/ggql/pkg/ggql", fset, files, info)
+	if err != nil {
+		// type errors in the tree under test are the build's business; we still
+		// need type information, so fail loudly.
+		fatal("type check: %v", err)
+	}
+
+	sum := summary{AccessByField: map[string]int{}}
+	// field ids
+	fieldID := map[*types.Var]int{}
+	var tnames []string
+	for tn := range watch {
+		tnames = append(tnames, tn)
+	}
+	sort.Strings(tnames)
+	for _, tn := range tnames {
+		obj := tpkg.Scope().Lookup(tn)
+		if obj == nil {
+			continue
+		}
+		st, _ := obj.Type().Underlying().(*types.Struct)
+		if st == nil {
+			continue
+		}
+		for _, fn := range watch[tn] {
+			for i := 0; i < st.NumFields(); i++ {
+				if st.Field(i).Name() == fn {
+					fieldID[st.Field(i)] = len(sum.FieldIDs)
+					sum.FieldIDs = append(sum.FieldIDs, tn+"."+fn)
+				}
+			}
+		}
+	}
+
+	otherSync := map[string]bool{}
+	for fi, f := range files {
+		fname := filepath.Base(names[fi])
+		usesUnsafe := false
+		// 1. mutex type rewrite + detection of other primitives
+		ast.Inspect(f, func(n ast.Node) bool {
+			switch x := n.(type) {
+			case *ast.GoStmt:
+				otherSync["go statement "+fname+":"+fmt.Sprint(fset.Position(x.Pos()).Line)] = true
+			case *ast.ChanType:
+				otherSync["channel type "+fname+":"+fmt.Sprint(fset.Position(x.Pos()).Line)] = true
+			case *ast.SelectorExpr:
+				if id, ok := x.X.(*ast.Ident); ok {
+					if pn, ok := info.Uses[id].(*types.PkgName); ok {
+						switch pn.Imported().Path() {
+						case "sync":
+							switch x.Sel.Name {
+							case "Mutex", "RWMutex":
+							default:
+								otherSync["sync."+x.Sel.Name+" "+fname+":"+fmt.Sprint(fset.Position(x.Pos()).Line)] = true
+							}
+						case "sync/atomic":
+							otherSync["sync/atomic."+x.Sel.Name+" "+fname+":"+fmt.Sprint(fset.Position(x.Pos()).Line)] = true
+						case "time":
+							switch x.Sel.Name {
+							case "Now", "Sleep", "After", "NewTimer", "NewTicker", "AfterFunc", "Since", "Tick":
+								otherSync["time."+x.Sel.Name+" "+fname+":"+fmt.Sprint(fset.Position(x.Pos()).Line)] = true
+							}
+						case "math/rand":
+							otherSync["math/rand."+x.Sel.Name+" "+fname+":"+fmt.Sprint(fset.Position(x.Pos()).Line)] = true
+						}
+					}
+				}
+				if s := info.Selections[x]; s != nil && s.Kind() == types.MethodVal {
+					if isSyncMutex(s.Recv()) {
+						switch x.Sel.Name {
+						case "Lock", "Unlock", "RLock", "RUnlock", "TryLock":
+							sum.LockCallSites++
+						}
+					}
+				}
+			}
+			return true
+		})
+		rewriteMutexTypes(f, info, &sum)
+
+		// 2. access instrumentation
+		ins := &inserter{fset: fset, info: info, fieldID: fieldID, names: sum.FieldIDs, fname: fname, sum: &sum}
+		for _, d := range f.Decls {
+			if fd, ok := d.(*ast.FuncDecl); ok && fd.Body != nil {
+				ins.block(fd.Body)
+			}
+		}
+		if ins.inserted > 0 {
+			usesUnsafe = true
+		}
+		var buf bytes.Buffer
+		if err := format.Node(&buf, fset, f); err != nil {
+			fatal("print %s: %v", fname, err)
+		}
+		src := buf.String()
+		if usesUnsafe && !importsPkg(f, "unsafe") {
+			src = addImport(src, "unsafe")
+		}
+		if importsPkg(f, "sync") {
+			src += "\nvar _ sync.Locker // verif: keeps the import used after the mutex type rewrite\n"
+		}
+		if err := os.WriteFile(names[fi], []byte(src), 0o644); err != nil {
+			fatal("write: %v", err)
+		}
+		sum.Files++
+	}
+	for k := range otherSync {
+		sum.OtherSync = append(sum.OtherSync, k)
+	}
+	sort.Strings(sum.OtherSync)
+	if err := os.WriteFile(filepath.Join(dir, "zz_verif_sim.go"), []byte(genFile(sum.FieldIDs)), 0o644); err != nil {
+		fatal("write generated file: %v", err)
+	}
+	out, _ := json.Marshal(&sum)
+	fmt.Println(string(out))
+}
+
+func isSyncMutex(t types.Type) bool {
+	if p, ok := t.(*types.Pointer); ok {
+		t = p.Elem()
+	}
+	if n, ok := t.(*types.Named); ok && n.Obj().Pkg() != nil && n.Obj().Pkg().Path() == "sync" {
+		return n.Obj().Name() == "Mutex" || n.Obj().Name() == "RWMutex"
+	}
+	return false
+}
+
+func rewriteMutexTypes(f *ast.File, info *types.Info, sum *summary) {
+	repl := func(e ast.Expr) ast.Expr {
+		if se, ok := e.(*ast.SelectorExpr); ok {
+			if id, ok := se.X.(*ast.Ident); ok {
+				if pn, ok := info.Uses[id].(*types.PkgName); ok && pn.Imported().Path() == "sync" {
+					switch se.Sel.Name {
+					case "Mutex":
+						sum.MutexTypes++
+						return &ast.Ident{Name: "VerifMutex", NamePos: se.Pos()}
+					case "RWMutex":
+						sum.MutexTypes++
+						return &ast.Ident{Name: "VerifRWMutex", NamePos: se.Pos()}
+					}
+				}
+			}
+		}
+		return e
+	}
+	ast.Inspect(f, func(n ast.Node) bool {
+		switch x := n.(type) {
+		case *ast.Field:
+			x.Type = replDeep(x.Type, repl)
+		case *ast.ValueSpec:
+			if x.Type != nil {
+				x.Type = replDeep(x.Type, repl)
+			}
+		case *ast.TypeSpec:
+			x.Type = replDeep(x.Type, repl)
+		case *ast.CompositeLit:
+			if x.Type != nil {
+				x.Type = replDeep(x.Type, repl)
+			}
+		}
+		return true
+	})
+}
+
+func replDeep(e ast.Expr, repl func(ast.Expr) ast.Expr) ast.Expr {
+	switch x := e.(type) {
+	case *ast.SelectorExpr:
+		return repl(x)
+	case *ast.StarExpr:
+		x.X = replDeep(x.X, repl)
+	case *ast.ArrayType:
+		x.Elt = replDeep(x.Elt, repl)
+	case *ast.MapType:
+		x.Key = replDeep(x.Key, repl)
+		x.Value = replDeep(x.Value, repl)
+	}
+	return e
+}
+
+func importsPkg(f *ast.File, path string) bool {
+	for _, im := range f.Imports {
+		if strings.Trim(im.Path.Value, `"`) == path {
+			return true
+		}
+	}
+	return false
+}
+
+func addImport(src, path string) string {
+	i := strings.Index(src, "\npackage ggql\n")
+	if i < 0 {
+		fatal("package clause not found")
+	}
+	j := i + len("\npackage ggql\n")
+	return src[:j] + "\nimport \"" + path + "\"\n" + src[j:]
+}
+
+type inserter struct {
+	fset     *token.FileSet
+	info     *types.Info
+	fieldID  map[*types.Var]int
+	names    []string
+	fname    string
+	sum      *summary
+	inserted int
+}
+
+type access struct {
+	sel   *ast.SelectorExpr
+	id    int
+	write bool
+}
+
+func (in *inserter) block(b *ast.BlockStmt) {
+	if b == nil {
+		return
+	}
+	b.List = in.list(b.List)
+}
+
+func (in *inserter) list(stmts []ast.Stmt) []ast.Stmt {
+	var out []ast.Stmt
+	for _, s := range stmts {
+		for _, a := range in.accesses(s) {
+			out = append(out, in.call(a))
+		}
+		in.descend(s)
+		out = append(out, s)
+	}
+	return out
+}
+
+// descend instruments nested statement lists.
+func (in *inserter) descend(s ast.Stmt) {
+	switch x := s.(type) {
+	case *ast.BlockStmt:
+		in.block(x)
+	case *ast.IfStmt:
+		in.block(x.Body)
+		if x.Else != nil {
+			in.descend(x.Else)
+		}
+	case *ast.ForStmt:
+		in.block(x.Body)
+	case *ast.RangeStmt:
+		in.block(x.Body)
+	case *ast.SwitchStmt:
+		in.clauses(x.Body)
+	case *ast.TypeSwitchStmt:
+		in.clauses(x.Body)
+	case *ast.SelectStmt:
+		in.clauses(x.Body)
+	case *ast.LabeledStmt:
+		in.descend(x.Stmt)
+	}
+}
+
+func (in *inserter) clauses(b *ast.BlockStmt) {
+	for _, c := range b.List {
+		switch cc := c.(type) {
+		case *ast.CaseClause:
+			cc.Body = in.list(cc.Body)
+		case *ast.CommClause:
+			cc.Body = in.list(cc.Body)
+		}
+	}
+}
+
+// accesses returns the watched field accesses that statement s certainly
+// performs itself (not in nested blocks, function literals, or the right-hand
+// side of && / ||).
+func (in *inserter) accesses(s ast.Stmt) []access {
+	var exprs []ast.Expr
+	var lhs []ast.Expr
+	switch x := s.(type) {
+	case *ast.AssignStmt:
+		exprs = append(exprs, x.Rhs...)
+		lhs = x.Lhs
+	case *ast.IncDecStmt:
+		lhs = []ast.Expr{x.X}
+	case *ast.ExprStmt:
+		exprs = []ast.Expr{x.X}
+	case *ast.ReturnStmt:
+		exprs = x.Results
+	case *ast.IfStmt:
+		if x.Init != nil {
+			return nil // keep it simple: header with init is not instrumented
+		}
+		exprs = []ast.Expr{x.Cond}
+	case *ast.SwitchStmt:
+		if x.Init != nil || x.Tag == nil {
+			return nil
+		}
+		exprs = []ast.Expr{x.Tag}
+	case *ast.RangeStmt:
+		exprs = []ast.Expr{x.X}
+	case *ast.LabeledStmt:
+		return nil
+	case *ast.DeclStmt:
+		if gd, ok := x.Decl.(*ast.GenDecl); ok {
+			for _, sp := range gd.Specs {
+				if vs, ok := sp.(*ast.ValueSpec); ok {
+					exprs = append(exprs, vs.Values...)
+				}
+			}
+		}
+	default:
+		return nil
+	}
+	var out []access
+	seen := map[string]bool{}
+	add := func(sel *ast.SelectorExpr, write bool) {
+		s := in.info.Selections[sel]
+		if s == nil || s.Kind() != types.FieldVal {
+			return
+		}
+		v, _ := s.Obj().(*types.Var)
+		id, ok := in.fieldID[v]
+		if !ok {
+			return
+		}
+		tv, ok := in.info.Types[sel]
+		if !ok || !tv.Addressable() {
+			in.sum.SkippedNonAddr++
+			return
+		}
+		key := fmt.Sprintf("%d/%v/%s", id, write, exprString(in.fset, sel))
+		if seen[key] {
+			return
+		}
+		seen[key] = true
+		out = append(out, access{sel: sel, id: id, write: write})
+	}
+	var walk func(e ast.Expr, write bool)
+	walk = func(e ast.Expr, write bool) {
+		switch x := e.(type) {
+		case nil:
+		case *ast.SelectorExpr:
+			add(x, write)
+			walk(x.X, false)
+		case *ast.BinaryExpr:
+			walk(x.X, false)
+			if x.Op != token.LAND && x.Op != token.LOR {
+				walk(x.Y, false)
+			}
+		case *ast.CallExpr:
+			walk(x.Fun, false)
+			for _, a := range x.Args {
+				walk(a, false)
+			}
+		case *ast.UnaryExpr:
+			walk(x.X, false) // &x.f counts as a read of the field
+		case *ast.StarExpr:
+			walk(x.X, false)
+		case *ast.ParenExpr:
+			walk(x.X, write)
+		case *ast.IndexExpr:
+			// m[k] = v / s[i] = v writes through the field's value, which reads
+			// the field itself (slice header / map pointer)
+			walk(x.X, false)
+			walk(x.Index, false)
+		case *ast.SliceExpr:
+			walk(x.X, false)
+			walk(x.Low, false)
+			walk(x.High, false)
+			walk(x.Max, false)
+		case *ast.TypeAssertExpr:
+			walk(x.X, false)
+		case *ast.CompositeLit:
+			for _, el := range x.Elts {
+				if kv, ok := el.(*ast.KeyValueExpr); ok {
+					walk(kv.Value, false)
+				} else {
+					walk(el, false)
+				}
+			}
+		case *ast.KeyValueExpr:
+			walk(x.Value, false)
+		case *ast.FuncLit:
+			// not executed by this statement
+		}
+	}
+	for _, e := range lhs {
+		walk(e, true)
+	}
+	for _, e := range exprs {
+		walk(e, false)
+	}
+	return out
+}
+
+func exprString(fset *token.FileSet, e ast.Expr) string {
+	var b bytes.Buffer
+	_ = format.Node(&b, fset, e)
+	return b.String()
+}
+
+func (in *inserter) call(a access) ast.Stmt {
+	pos := in.fset.Position(a.sel.Pos())
+	site := fmt.Sprintf("%s:%d", in.fname, pos.Line)
+	in.inserted++
+	in.sum.AccessSites++
+	in.sum.AccessByField[in.names[a.id]]++
+	src := fmt.Sprintf("verifAccess(%d, func() unsafe.Pointer { return unsafe.Pointer(&%s) }, %v, %q)",
+		a.id, exprString(in.fset, a.sel), a.write, site)
+	e, err := parser.ParseExpr(src)
+	if err != nil {
+		fatal("internal: cannot parse %q: %v", src, err)
+	}
+	clearPos(e)
+	return &ast.ExprStmt{X: e}
+}
+
+// clearPos removes position information from a synthesised expression so the
+// printer lays it out on its own.
+func clearPos(n ast.Node) {
+	ast.Inspect(n, func(n ast.Node) bool {
+		switch x := n.(type) {
+		case *ast.Ident:
+			x.NamePos = token.NoPos
+		case *ast.BasicLit:
+			x.ValuePos = token.NoPos
+		case *ast.CallExpr:
+			x.Lparen, x.Rparen = token.NoPos, token.NoPos
+		case *ast.FuncLit:
+			x.Type.Func = token.NoPos
+		case *ast.BlockStmt:
+			x.Lbrace, x.Rbrace = token.NoPos, token.NoPos
+		case *ast.ReturnStmt:
+			x.Return = token.NoPos
+		case *ast.UnaryExpr:
+			x.OpPos = token.NoPos
+		case *ast.ParenExpr:
+			x.Lparen, x.Rparen = token.NoPos, token.NoPos
+		case *ast.IndexExpr:
+			x.Lbrack, x.Rbrack = token.NoPos, token.NoPos
+		case *ast.StarExpr:
+			x.Star = token.NoPos
+		case *ast.FieldList:
+			x.Opening, x.Closing = token.NoPos, token.NoPos
+		}
+		return true
+	})
+}
+
+func genFile(fieldNames []string) string {
+	var b strings.Builder
+	b.WriteString(`// Code generated by /verif/tools/instrument. DO NOT EDIT.
+
+package ggql
+
+import (
+	"sync"
+	"unsafe"
+)
+
+// VerifHook is implemented by the simulator's scheduler glue.
+type VerifHook interface {
+	// Lock acquires m cooperatively: try must be called when the scheduler
+	// believes the lock free.
+	Lock(m unsafe.Pointer, try func() bool)
+	// Unlocked is called after the real unlock.
+	Unlocked(m unsafe.Pointer)
+	// Access is called before a statement that reads / writes a watched field.
+	Access(id int, addr func() unsafe.Pointer, write bool, site string)
+}
+
+// VerifSimHook is nil outside simulated runs: the instrumented package then
+// behaves exactly like the original.
+var VerifSimHook VerifHook
+
+// VerifFieldNames maps field ids to Struct.field names.
+var VerifFieldNames = []string{
+`)
+	for _, n := range fieldNames {
+		fmt.Fprintf(&b, "\t%q,\n", n)
+	}
+	b.WriteString(`}
+
+// VerifMutex replaces sync.Mutex in the instrumented copy. It wraps a real
+// sync.Mutex so that the race detector sees the true acquire/release edges.
+type VerifMutex struct{ mu sync.Mutex }
+
+func (m *VerifMutex) Lock() {
+	if h := VerifSimHook; h != nil {
+		h.Lock(unsafe.Pointer(m), m.mu.TryLock)
+		return
+	}
+	m.mu.Lock()
+}
+
+func (m *VerifMutex) TryLock() bool { return m.mu.TryLock() }
+
+func (m *VerifMutex) Unlock() {
+	m.mu.Unlock()
+	if h := VerifSimHook; h != nil {
+		h.Unlocked(unsafe.Pointer(m))
+	}
+}
+
+// VerifRWMutex replaces sync.RWMutex; readers are treated as writers by the
+// scheduler (exclusive), which only removes interleavings, never adds any.
+type VerifRWMutex struct{ mu sync.RWMutex }
+
+func (m *VerifRWMutex) Lock() {
+	if h := VerifSimHook; h != nil {
+		h.Lock(unsafe.Pointer(m), m.mu.TryLock)
+		return
+	}
+	m.mu.Lock()
+}
+
+func (m *VerifRWMutex) Unlock() {
+	m.mu.Unlock()
+	if h := VerifSimHook; h != nil {
+		h.Unlocked(unsafe.Pointer(m))
+	}
+}
+
+func (m *VerifRWMutex) RLock() {
+	if h := VerifSimHook; h != nil {
+		h.Lock(unsafe.Pointer(m), m.mu.TryLock)
+		return
+	}
+	m.mu.RLock()
+}
+
+func (m *VerifRWMutex) RUnlock() {
+	if h := VerifSimHook; h != nil {
+		m.mu.Unlock()
+		h.Unlocked(unsafe.Pointer(m))
+		return
+	}
+	m.mu.RUnlock()
+}
+
+func verifAccess(id int, addr func() unsafe.Pointer, write bool, site string) {
+	if h := VerifSimHook; h != nil {
+		h.Access(id, addr, write, site)
+	}
+}
+`)
+	return b.String()
+}
